@@ -444,6 +444,8 @@ func counterCellRule(c *core.Check, r *core.Rule) {
 				case x.Op == token.SUB && isK && k > 0 && loadOfCell(x.X):
 					if ok2, how := core.ProveAtLeast(fn, x.X, k, st.Block()); ok2 {
 						okv, why = true, "the cell minus "+fmt.Sprint(k)+" under a test: "+how
+					} else if guardedCellDecrement(st, k, loadOfCell) {
+						okv, why = true, "the cell minus "+fmt.Sprint(k)+" directly under a test that the cell is at least "+fmt.Sprint(k)
 					} else {
 						why = "the cell is decremented without a test that it is at least " + fmt.Sprint(k) + " (a closing quote without an opening one makes the depth negative, and the depth indexes the quotes list)"
 					}
@@ -455,4 +457,69 @@ func counterCellRule(c *core.Check, r *core.Rule) {
 	if n == 0 {
 		r.Anchor("stores into quoteDepth[0] in html/boxes")
 	}
+}
+
+// guardedCellDecrement: the store's block is the branch of a test `cell > c` / `cell >= c` (c large enough) read from
+// the same cell, with no other store into the cell between the test and the decrement.
+func guardedCellDecrement(st *ssa.Store, k int64, loadOfCell func(ssa.Value) bool) bool {
+	b := st.Block()
+	if len(b.Preds) != 1 {
+		return false
+	}
+	pb := b.Preds[0]
+	ifi, ok := pb.Instrs[len(pb.Instrs)-1].(*ssa.If)
+	if !ok {
+		return false
+	}
+	cmp, ok := ifi.Cond.(*ssa.BinOp)
+	if !ok || !loadOfCell(cmp.X) {
+		return false
+	}
+	c, ok := core.ConstInt(cmp.Y)
+	if !ok {
+		return false
+	}
+	onTrue := pb.Succs[0] == b
+	atLeast := int64(-1 << 62)
+	switch {
+	case cmp.Op == token.GTR && onTrue:
+		atLeast = c + 1
+	case cmp.Op == token.GEQ && onTrue:
+		atLeast = c
+	case cmp.Op == token.LEQ && !onTrue:
+		atLeast = c + 1
+	case cmp.Op == token.LSS && !onTrue:
+		atLeast = c
+	case cmp.Op == token.NEQ && onTrue && c == 0, cmp.Op == token.EQL && !onTrue && c == 0:
+		return false // != 0 does not exclude negatives
+	}
+	if atLeast < k {
+		return false
+	}
+	// no call or store between the test's load and the decrement (same two blocks)
+	ld := cmp.X.(*ssa.UnOp)
+	seen := false
+	for _, blk := range []*ssa.BasicBlock{pb, b} {
+		for _, in := range blk.Instrs {
+			if in == ssa.Instruction(ld) {
+				seen = true
+				continue
+			}
+			if !seen {
+				continue
+			}
+			if in == ssa.Instruction(st) {
+				return true
+			}
+			switch y := in.(type) {
+			case *ssa.Store:
+				return false
+			case *ssa.Call:
+				if _, isB := y.Call.Value.(*ssa.Builtin); !isB {
+					return false
+				}
+			}
+		}
+	}
+	return false
 }
